@@ -40,7 +40,7 @@ RULE = ("cases = (ids 0..40 as int/str/tuple payloads, parallel 1..8, max_tasks 
         "tolerate_fails 0/1, per-id behaviour: value shapes int/str/list/gen/64KiB blob, raising "
         "ValueError/2-arg custom/OSError/KeyError/local class, transient BrokenPipeError k times, "
         "per-id durations, consumer / parent-callback / in-thread-callback delays, scaled poll timeout, "
-        "pause before _check_children); kinds trace (replayed through the Lean transition system), "
+        "pause before _check_children, optionally an earlier run of >= n ids on the same Parallel object); kinds trace (replayed through the Lean transition system), "
         "single (pool_size 1), plain (untouched timing, irun or run, PoolProgressLogger callback); "
         "non-trivial = at least 2 ids on at least 2 workers; distinct = distinct case descriptors")
 TRUSTED_BASE = [
@@ -174,6 +174,8 @@ def make_case(rng, kind, tier="quick"):
     case["cons"] = rng.choice([0, 0, 0, 2, 10, 30])       # caller sleeps after every result (ms)
     case["cb"] = rng.choice([0, 0, 0, 3, 15])             # parent-side callback sleeps (ms)
     case["itcb"] = rng.choice([0, 0, 0, 5])               # in-thread (worker-side) callback sleeps (ms)
+    if n >= 2 and rng.random() < 0.2:
+        case["warm"] = n + rng.choice([0, 0, 1, 3])     # an earlier run of at least as many ids on the same object
     if kind == "trace":
         case["gt"] = rng.choice([5, 10, 20, 40, 80])      # done_queue.get(True, 1) waits gt ms instead of 1 s
         case["pause"] = rng.choice([0, 0, 0, 0, 10, 30, 60])  # parent sleeps before _check_children reads exit codes
@@ -316,6 +318,8 @@ _ATTEMPTS = {}
 def _task(device_id, spec):
     case = spec
     i = model_id(case, device_id)
+    if i >= 1000:
+        return i            # warm-up run
     b = case["beh"][str(i)]
     d = case["dur"].get(str(i), 0)
     if d:
@@ -384,6 +388,7 @@ class _Ctl:
         self.last_get_empty = False
         self.take_lock = None
         self.nqueues = 0
+        self.warming = False
 
     def log(self, *a):
         os.write(self.fd, (" ".join(str(x) for x in a) + "\n").encode())
@@ -463,7 +468,7 @@ def _install_shim(ctl):
     class Shim:
         def Queue(self):
             ctl.nqueues += 1
-            return LQ("task" if ctl.nqueues == 1 else "done")
+            return LQ("task" if ctl.nqueues % 2 == 1 else "done")
 
         Process = PS
         cpu_count = staticmethod(realmp.cpu_count)
@@ -474,7 +479,7 @@ def _install_shim(ctl):
 
     def cc(self, pool):
         ctl.log("C")
-        if case.get("pause") and (case.get("pause_when") == "always" or ctl.last_get_empty):
+        if case.get("pause") and not ctl.warming and (case.get("pause_when") == "always" or ctl.last_get_empty):
             time.sleep(case["pause"] / 1000.0)
         return orig_cc(self, pool)
     ap.Parallel._check_children = cc
@@ -526,7 +531,7 @@ def _install_light_shim(ctl):
     class Shim:
         def Queue(self):
             ctl.nqueues += 1
-            return LQ("task" if ctl.nqueues == 1 else "done")
+            return LQ("task" if ctl.nqueues % 2 == 1 else "done")
 
         Process = realmp.Process
         cpu_count = staticmethod(realmp.cpu_count)
@@ -556,6 +561,15 @@ def _run_case(case, logpath):
         _install_light_shim(ctl)
     ids = [real_id(case, i) for i in case["ids"]]
     p = ap.Parallel(_task, case).tune(parallel=case["parallel"], max_tasks=case["max_tasks"])
+    if case.get("warm"):
+        # history: the same Parallel object has already served an earlier run (ids 1000.., all succeed at once);
+        # only the run that follows is logged and judged
+        ctl.warming = True
+        for _ in p.irun([real_id(case, 1000 + k) for k in range(case["warm"])], True):
+            pass
+        ctl.warming = False
+        os.ftruncate(ctl.fd, 0)
+        ctl.last_get_empty = False
     if case.get("cb"):
         def cb(pool, tr):
             time.sleep(case["cb"] / 1000.0)
@@ -1143,6 +1157,8 @@ def stats(case, r):
         lab.append("retirement-needed")
     if len(set(case["ids"])) < n:
         lab.append("duplicate-ids")
+    if case.get("warm"):
+        lab.append("second-run-on-same-Parallel-object")
     if any(b.get("trans") for b in case["beh"].values()):
         lab.append("transient-net-errors")
     d = r.get("diag") or {}
